@@ -39,7 +39,7 @@ v('c10-record-unconditional','R-C10.3',T,"""        if migrating:
             applied_migrations = \\
                 state['migration_executor'].loader.extra_applied_migrations
 
-            if applied_migrations:""")
+            if applied_migrations:""",expect='silent',note='recording the marked migrations even when nothing is left to migrate is correct; an earlier version of R-C10.3 demanded the guard, which was a false alarm on a correct repair')
 v('c10-plan-no-exclude','R-C10.3',T,"""            post_migration_targets = filter_migration_targets(
                 targets=migration_loader.graph.leaf_nodes(),
                 app_labels=migration_app_labels,
